@@ -181,9 +181,11 @@ CHECKS["C16"] = dict(
     technique="fault injection at user-callback positions + idle-state/leak monitor on the process-wide construction stacks and the object's model + twin comparison of the scripted continuation against a pristine session",
     text="Fault positions enumerated per program: each statement index of a constraint body at construction; raise inside randomize_with "
          "at depth plain / if_then / foreach / implies; pre_randomize and post_randomize of each object of the tree; calls made "
-         "unsatisfiable (randomize_with, vsc.randomize_with, with solve_fail_debug) on programs with foreach / dist rewrites active. "
+         "unsatisfiable (randomize_with, vsc.randomize_with, with solve_fail_debug; also naming a field of ANOTHER object) on programs "
+         "with foreach / dist rewrites active and lists edited between the calls; a solver-library error raised while the formula is "
+         "built (part-select beyond the field) in a call that names a field of another object. "
          "Right after the faulted call: the five shared stacks are empty, no field model holds a solver handle, no temporary "
-         "ConstraintOverrideModel remains, the constraint-tree fingerprint is unchanged. Then both the faulted and a pristine session are "
+         "ConstraintOverrideModel remains, the constraint-tree fingerprint and the exposed length of every list are unchanged. Then both the faulted and a pristine session are "
          "re-seeded and run the same continuation (randomizations, new instances, definition of a NEW class using solve_order): traces "
          "must be equal.",
     design_ref="DESIGN.md section 3, C16; section 2.3 M4", note="The pristine twin runs first in the same worker from a reset construction state; values are compared on successful continuation calls.")
